@@ -1,3 +1,63 @@
-import Babylon.Core.Proto
-/-! Line-protocol driver for property C14 (stub). -/
-def main : IO Unit := Babylon.Core.runLines (fun (s : Unit) _ => (s, "bad-op")) ()
+import Babylon.Core.Trace
+import Babylon.IdAlloc.Model
+/-! Lock-step replay driver for property C14 (IdAllocator / DepositBox).
+stdin: runs `RUN <seed> W=<bits> …` / VRT trace lines / `END`; stdout: `ok <n>` | `diverge <why>`. -/
+open Babylon.Core Babylon.IdAlloc
+
+structure RState where
+  c : Cfg
+  s : State
+
+def initR (hdr : List String) : RState :=
+  let w := (hdr.filterMap (fun h => if h.startsWith "W=" then (h.drop 2).toNat? else none)).head?.getD 32
+  { c := { W := w }, s := State.init { W := w } }
+
+def showPc : Pc → String
+  | p => reprStr p
+
+def stepObs (r : RState) (o : Obs) : Except String RState :=
+  let t := o.tid
+  match Act.ofObs o with
+  | none => .error "unknown trace line"
+  | some (.ev ["call", "alloc"]) =>
+    if r.s.pc t = .idle then .ok { r with s := callAlloc r.s t } else .error s!"call while not idle (pc {showPc (r.s.pc t)})"
+  | some (.ev ["call", "dealloc", v]) =>
+    match v.toNat? with
+    | none => .error "bad value"
+    | some v =>
+      if r.s.pc t ≠ .idle then .error "call while not idle"
+      else if r.s.owner v ≠ some t then .error s!"client contract: thread {t} deallocates id {v} it does not own in the model"
+      else .ok { r with s := callDealloc r.s t v }
+  | some (.ev ["ret", "alloc", v, ver]) =>
+    if r.s.pc t ≠ .idle then .error s!"implementation returned from allocate but the model thread is at {showPc (r.s.pc t)}"
+    else if r.s.result t = (do pure ((← v.toNat?), (← ver.toNat?))) then .ok r
+    else .error s!"allocate returned {v}@{ver}, model says {reprStr (r.s.result t)}"
+  | some (.ev ["ret", "dealloc"]) =>
+    if r.s.pc t = .idle then .ok r else .error s!"implementation returned from deallocate but the model thread is at {showPc (r.s.pc t)}"
+  | some (.ev ["call", "end"]) =>
+    if r.s.pc t = .idle then .ok { r with s := callEnd r.s t } else .error "call while not idle"
+  | some (.ev ["ret", "end", n]) =>
+    if r.s.pc t = .idle && some (r.s.bound t) == n.toNat? then .ok r else .error s!"end() returned {n}, model says {r.s.bound t}"
+  | some (.ev ["call", "foreach"]) =>
+    if r.s.pc t = .idle then .ok { r with s := callForEach r.s t } else .error "call while not idle"
+  | some (.ev ("ret" :: "foreach" :: ids)) =>
+    let want := forEachIds r.c r.s (min 128 (r.s.bound t))
+    if r.s.pc t = .idle && ids.mapM String.toNat? == some want then .ok r
+    else .error s!"for_each reported {ids}, model says {want}"
+  | some (.ev _) => .ok r            -- other harness events (oracle verdicts, notes)
+  | some (.spawn _) | some (.join _) | some .exit => .ok r
+  | some a =>
+    let spurious := match a with
+      | .cas _ _ _ _ _ e _ ok obs => !ok && e == obs
+      | _ => false
+    match stepThread r.c r.s t spurious with
+    | none => .error s!"implementation performs {reprStr a} but the model thread is idle"
+    | some (s', l) =>
+      if l = a then .ok { r with s := s' }
+      else .error s!"model expects {reprStr l}, implementation did {reprStr a}"
+
+def finalR (r : RState) : Except String Unit :=
+  if r.s.dup then .error "model reached a state where an id has two owners" else .ok ()
+
+def main : IO Unit := do
+  replayLoop (← IO.getStdin) initR stepObs finalR
